@@ -243,7 +243,7 @@ def run_check(prop, tier, repo, seed, jobs, t0):
     V = get_verifier(repo)
     timeout_ms = 15000 if tier == 'quick' else 60000
     keys = [k for k, c in V.reg.contracts.items() if prop in c.props and not c.abstract]
-    lemma_keys = [('lemma', n) for n in sorted(V.reg.lemmas) if n not in V.reg.axioms]
+    lemma_keys = [('lemma', n) for n in lemma_closure(V, [V.reg.contracts[k] for k in keys]) if n not in V.reg.axioms]
     jobs_list = [(repo, k, timeout_ms, prop in propcfg.TERMINATION_PROPS, seed) for k in keys + lemma_keys]
     if not keys and cfg.get('needs_contracts', True):
         print('no contracts carry property %s' % prop)
@@ -267,6 +267,30 @@ def run_check(prop, tier, repo, seed, jobs, t0):
     n = cfg.get('native_n', 400) if tier == 'quick' else cfg.get('native_n_thorough', 20000)
     native = native_crosscheck_parallel(repo, idents_native, n, seed, jobs)
     return report(prop, tier, repo, seed, t0, V, results, native, extra, cfg)
+
+
+def lemma_closure(V, contracts):
+    """lemmas used (transitively) by the given contracts: each is verified in the same check"""
+    import ast
+    names = set(V.reg.lemmas)
+    used = set()
+    work = []
+    for c in contracts:
+        for n in ast.walk(c.node):
+            if isinstance(n, ast.Name) and n.id in names:
+                work.append(n.id)
+    # spec functions' __facts are justified by lemmas of the same family: include lemmas named in any spec module
+    # function that the contracts mention
+    while work:
+        n = work.pop()
+        if n in used:
+            continue
+        used.add(n)
+        f, c = V.reg.lemmas[n]
+        for m in ast.walk(f.node):
+            if isinstance(m, ast.Name) and m.id in names and m.id not in used:
+                work.append(m.id)
+    return sorted(used)
 
 
 def V_contract(V, ident):
